@@ -121,7 +121,7 @@ ActFor(e) ==
     [] e.op = "rr_new"       -> Len(Served(e)) = 1 /\ ActRrNew(e.out, e.out_seed, e.pkp, e.pkg, Served(e)[1])
     [] e.op = "rr_regen"     -> ActRrRegen(e.out, e.pkp, e.seed, e.pkg)
     [] e.op = "rr_fixed"     -> ActRrFixed(e.out, e.pkp, e.alpha)
-    [] e.op = "tamper_seed"  -> ActTamperSeed(e.out, e.src, e.d)
+    [] e.op = "tamper_seed"  -> ActTamperSeedHow(e.out, e.src, IF Fld(e, "how") THEN e.how ELSE "last", e.d)
     [] e.op = "rr_sign"      -> ActRrSign(e.out, e.pkg, e.non, e.kp, e.seed)
     [] e.op = "rr_sign_fixed" -> ActRrSignFixed(e.out, e.pkg, e.non, e.kp, e.rp)
     [] e.op = "mk_sk"        -> ActMkSk(e.out, e.key)
